@@ -11,8 +11,8 @@
     [itf8_Decode] are regenerated from the Go source on every run. *)
 From Coq Require Import ZArith List Bool.
 From Hts Require Import Base.Prim Base.DecBase Generated
-  Model.DecText Model.DecBam Model.DecIndex Model.DecCram Model.DecBgzf Model.DecSam Model.Fai
-  Proofs.DecText Proofs.DecBam Proofs.DecIndex Proofs.DecCram Proofs.DecBgzf Proofs.DecSam.
+  Model.DecText Model.DecBam Model.DecIndex Model.DecCram Model.DecBgzf Model.DecSam Model.Fai Model.DecQuery
+  Proofs.DecText Proofs.DecBam Proofs.DecIndex Proofs.DecCram Proofs.DecBgzf Proofs.DecSam Proofs.DecQuery.
 Open Scope Z_scope.
 
 (* ------------------------------------------------ CIGAR tables and accessors *)
@@ -148,6 +148,23 @@ Theorem csi_read_total : forall s, safe (csi_read_from s).
 Proof. exact csi_read_from_total_gen. Qed.
 Print Assumptions csi_read_total.
 
+(** Value safety of the index readers on the query side: csi.Index.Chunks answers
+    every interval (empty, reversed, negative, beyond the geometry) on every
+    geometry csi.ReadFrom accepts, and internal.Index.Chunks (BAI, tabix) every
+    interval for every length of the linear index: rejected / nil, or the tile
+    index is inside Intervals and the uint32 bin enumeration terminates.
+    (sort.Search, the merge strategies and the writers are exercised by the
+    fuzz run only.) *)
+Theorem csi_chunks_query_total :
+  forall minShift depth beg end_, 0 <= minShift -> 0 <= depth <= 9 -> minShift + 3 * depth <= 63 ->
+    safe (csi_chunks_query minShift depth beg end_).
+Proof. exact csi_chunks_query_total_gen. Qed.
+Print Assumptions csi_chunks_query_total.
+
+Theorem bai_chunks_query_total : forall nintv beg end_, 0 <= nintv -> safe (bai_chunks_query nintv beg end_).
+Proof. exact bai_chunks_query_total_gen. Qed.
+Print Assumptions bai_chunks_query_total.
+
 (** fai.ReadFrom's conversion of a five field record: the *csv.ParseError panic
     of mustAtoi is the only panic and it is recovered. *)
 Theorem fai_record_total : forall conv fields, zlen fields = 5 -> safe (fai_record conv fields).
@@ -234,13 +251,15 @@ Proof. vm_compute. repeat split; reflexivity. Qed.
     when a guard is missing — the defects that were repaired in the library:
     an M5 value of 34 hex digits overruns the 16 byte digest buffer; a one byte
     Aux (early NUL in a Z field) breaks every accessor; txt[1] of "XY:B:c";
-    names[len(names)-1] of an empty tabix name block. *)
+    names[len(names)-1] of an empty tabix name block; csi reg2bins on the
+    unvalidated empty interval (0,0) never leaves its level 0 loop. *)
 Example guards_are_needed :
   (exists v, is_panic (hex_decode 16 0 v (S (length v))) = true)
   /\ is_panic (aux_value [88]) = true
   /\ inb [99] 1 = false
-  /\ inb (@nil Z) (zlen (@nil Z) - 1) = false.
+  /\ inb (@nil Z) (zlen (@nil Z) - 1) = false
+  /\ reg2bins 0 0 14 5 = Stuck.
 Proof.
   split; [exact hex_decode_unguarded_panics|]. split; [exact (proj1 short_aux_panics)|].
-  split; [exact parse_aux_B_short_would_panic|exact tabix_empty_names_would_panic].
+  split; [exact parse_aux_B_short_would_panic|]. split; [exact tabix_empty_names_would_panic|exact reg2bins_empty_query_stuck].
 Qed.
